@@ -1,7 +1,12 @@
 """property -> correspondence suites"""
-from .suites import pure, diff
+from .suites import pure, diff, walk
 
 PROPS = {
+    "C09": {
+        "suites": [walk.WalkSuite, pure.PathFn],
+        "assumptions": ["os.ReadDir/filepath.WalkDir order = bytewise name order per directory (exercised by suite walk)",
+                        "'stat matches lstat/readlink/listxattr' is an OS fact: decided by correspondence with an independent snapshot only"],
+    },
     "C02": {
         "suites": [diff.DiffSuite],
         "assumptions": ["listing-level: the old-destination listing is what the receiver's walk of dest reports (tied by the resync suite)"],
